@@ -48,7 +48,7 @@ class Observation:
     _perm_error_idx = _conn_error_idx + 1
     _undef_error_idx = _perm_error_idx + 1
 
-    def __init__(self, state_shape):
+    def __init__(self, state_shape, host_cls=HostVector):
         """
         Parameters
         ----------
@@ -58,6 +58,7 @@ class Observation:
         self.obs_shape = (state_shape[0]+1, state_shape[1])
         self.aux_row = self.obs_shape[0]-1
         self.tensor = np.zeros(self.obs_shape, dtype=np.float32)
+        self.host_cls = host_cls
 
     @staticmethod
     def get_space_bounds(scenario):
@@ -79,8 +80,8 @@ class Observation:
         return (obs_low, obs_high)
 
     @classmethod
-    def from_numpy(cls, o_array, state_shape):
-        obs = cls(state_shape)
+    def from_numpy(cls, o_array, state_shape, host_cls=HostVector):
+        obs = cls(state_shape, host_cls)
         if o_array.shape != (state_shape[0]+1, state_shape[1]):
             o_array = o_array.reshape(state_shape[0]+1, state_shape[1])
         obs.tensor = o_array
@@ -203,7 +204,7 @@ class Observation:
         host_obs = []
         for host_idx in range(self.obs_shape[0]-1):
             host_obs_vec = self.tensor[host_idx]
-            readable_dict = HostVector.get_readable(host_obs_vec)
+            readable_dict = self.host_cls.get_readable(host_obs_vec)
             host_obs.append(readable_dict)
 
         aux_obs = {
